@@ -312,6 +312,22 @@ impl<'p> World<'p> {
                 // serialise(parse(x)) must give back the canonical bytes
                 match be.key_raw(rec.kind, &h) {
                     Out::Ok(raw) => {
+                        // a key accepted from another encoding of the same value must serialise to the
+                        // canonical encoding of *that* value (judged without the library)
+                        if let Some(input) = &rec.raw {
+                            if let Some(canon) = canonical_key_bytes(rec.family, rec.kind, input) {
+                                if canon != raw {
+                                    self.violate(
+                                        "C08",
+                                        "accepted-key-serialises-to-another-value",
+                                        bk,
+                                        &format!("parse-{}", rec.kind.name()),
+                                        "",
+                                        format!("key slot {slot}: accepted {} bytes but serialises as {} which is not the canonical encoding {} of the same key", input.len(), hex::encode(&raw[..raw.len().min(12)]), hex::encode(&canon[..canon.len().min(12)])),
+                                    );
+                                }
+                            }
+                        }
                         if let Some(expect) = &rec.raw {
                             if rec.honest && &raw != expect {
                                 self.violate(
@@ -559,12 +575,20 @@ impl<'p> World<'p> {
         // v1 keys: the PASERK text carries DER; the PEM form is accepted as raw bytes.
         let bk = family_backend(family);
         let be = backend(bk);
+        // the stored truth is the fixture's own DER (decoded here, not by the library): what the
+        // library serialises after parsing must be exactly these bytes
+        let Some(der) = crate::keycheck::pem_to_der(text_pem) else { return self.skip("pool-pem") };
+        let truth_text = format!("k1.{}.{}", kind.header(), faults::b64(&der));
         let h = be.key_from_raw(kind, text_pem.as_bytes());
         match h {
             Out::Ok(h) => {
-                let text = be.key_text(kind, &h).ok();
-                let raw = be.key_raw(kind, &h).ok();
-                let rec = KeyRec { family, kind, text, raw, honest: true, expect_valid: Some(true), alt_store: if pem { Some(text_pem.as_bytes().to_vec()) } else { None } };
+                match be.key_raw(kind, &h) {
+                    Out::Ok(raw) if raw == der => {}
+                    Out::Ok(_) => self.violate("C08", "reparse-changed-bytes", bk, &format!("parse-{}", kind.name()), "", format!("RSA fixture {idx} ({}) serialises to different DER bytes after parsing", kind.name())),
+                    Out::Panic(p) => self.violate("C04", "panic", bk, &format!("expose-{}", kind.name()), "fixture", p),
+                    Out::Err(_) => {}
+                }
+                let rec = KeyRec { family, kind, text: Some(truth_text), raw: Some(der), honest: true, expect_valid: Some(true), alt_store: if pem { Some(text_pem.as_bytes().to_vec()) } else { None } };
                 self.keys.insert(slot, rec);
             }
             Out::Err(e) => self.violate("C08", "fixture-key-rejected", bk, &format!("parse-{}", kind.name()), "", format!("valid RSA fixture rejected: {e:?}")),
@@ -1542,6 +1566,15 @@ impl<'p> World<'p> {
             Out::Ok((s, bytes)) => {
                 self.obs(&format!("id {s}"));
                 self.stats.distinct.insert(format!("id|{}|{}", bk.name(), rec.kind.name()));
+                // keys whose canonical text is known independently of this node: the id is the digest of *that* text
+                if rec.honest {
+                    if let Some(t) = &rec.text {
+                        let want = refimpl::key_id(bk.family(), rec.kind, t);
+                        if want != bytes {
+                            self.violate("C13", "id-not-spec-digest", bk, &format!("id-{}", rec.kind.name()), "stored-text", format!("id {s} is not the spec digest of the key's canonical PASERK text {}", truncate(t, 60)));
+                        }
+                    }
+                }
                 // independent digest over the canonical PASERK text
                 if let Out::Ok(text) = be.key_text(rec.kind, &h) {
                     let want = refimpl::key_id(bk.family(), rec.kind, &text);
@@ -1649,6 +1682,25 @@ pub fn same_secret(family: u8, wk: WrapKind, a: &[u8], b: &[u8]) -> bool {
         return strip(a) == strip(b);
     }
     false
+}
+
+/// Canonical serialisation of a key value given in some accepted encoding, derived without the
+/// library (None: no independent derivation available for this encoding).
+pub fn canonical_key_bytes(family: u8, kind: Kind, input: &[u8]) -> Option<Vec<u8>> {
+    match (family, kind) {
+        (3, Kind::Public | Kind::PkePublic) => match input.first()? {
+            2 | 3 if input.len() == 49 && crate::curves::p384_x_on_curve(&input[1..]) => Some(input.to_vec()),
+            4 | 6 | 7 if input.len() == 97 && crate::curves::p384_xy_on_curve(&input[1..49], &input[49..]) => {
+                let mut c = vec![2 | (input[96] & 1)];
+                c.extend_from_slice(&input[1..49]);
+                Some(c)
+            }
+            _ => None,
+        },
+        (_, Kind::Local) if input.len() == 32 => Some(input.to_vec()),
+        (3, Kind::Secret | Kind::PkeSecret) if crate::curves::p384_scalar_valid(input) => Some(input.to_vec()),
+        _ => None,
+    }
 }
 
 pub fn short_key_detail(rec: &KeyRec) -> String {
